@@ -42,6 +42,11 @@ pub enum Op {
     Nodes2,
     Assign2 { val: f64 },
     Apply2 { f: u8, var: usize },
+    /// trapezium(var), square_trapezium(var); then apply(f, var) with a callback that panics at its
+    /// `at`-th invocation (caught); then both integrals again. Which nodes were written before the panic
+    /// is the implementation's business: the model is re-read from the mesh (every node must hold its
+    /// old value or f's value there), and from then on everything must agree with it again.
+    ApplyPanic2 { f: u8, var: usize, at: usize },
     XSec { i: usize },
     YSec { j: usize },
     VarMat { var: usize },
@@ -120,7 +125,9 @@ fn gen_grid(rng: &mut Rng, min_nodes: usize, max_nodes: usize, coarse: bool) -> 
     let mut x0 = rng.range(-64, 64) as f64 / 8.0;
     if rng.chance(0.15) {
         // grids far from the origin (still dyadic): absolute thresholds must not become relative ones
-        x0 += (2.0f64).powi(rng.range(6, 13) as i32) * if rng.chance(0.5) { -1.0 } else { 1.0 };
+        // (one in five of them very far: a time axis in epoch seconds; 2^30 + k/512 is still exact)
+        let e = if rng.chance(0.2) { rng.range(14, 30) } else { rng.range(6, 13) };
+        x0 += (2.0f64).powi(e as i32) * if rng.chance(0.5) { -1.0 } else { 1.0 };
     }
     let mut x = vec![x0];
     if n >= 5 && rng.chance(0.12) {
@@ -160,6 +167,9 @@ fn gen_grid(rng: &mut Rng, min_nodes: usize, max_nodes: usize, coarse: bool) -> 
 fn gen_val(rng: &mut Rng) -> f64 {
     if rng.chance(0.1) {
         0.0
+    } else if rng.chance(0.03) {
+        // the same data in other units: integers with up to twelve digits (column widths, digit counts)
+        rng.range(-1000, 1000) as f64 * (10.0f64).powi(rng.range(3, 9) as i32)
     } else {
         rng.range(-1000, 1000) as f64
     }
@@ -210,7 +220,8 @@ impl C19 {
     fn gen_case(&self, rng: &mut Rng, tier: Tier, _run: u64) -> Case {
         let coarse = rng.chance(0.3);
         let max_nodes = if rng.chance(if tier == Tier::Thorough { 0.05 } else { 0.03 }) { 40 } else { 12 };
-        let x1 = gen_grid(rng, 2, max_nodes, coarse);
+        // (one case in a hundred: a 1-D mesh with up to 300 nodes — block sizes, recursion cut-offs)
+        let x1 = if rng.chance(0.01) { gen_grid(rng, 100, 300, coarse) } else { gen_grid(rng, 2, max_nodes, coarse) };
         let nvars1 = rng.urange(1, 4);
         let x2 = gen_grid(rng, 2, max_nodes.min(12), coarse);
         let y2 = gen_grid(rng, 2, max_nodes.min(12), coarse);
@@ -274,7 +285,13 @@ impl C19 {
                     3 => Op::Get2 { i: rng.usize_below(64), j: rng.usize_below(64) },
                     4 => Op::Nodes2,
                     5 => Op::Assign2 { val: gen_val(rng) },
-                    6 => Op::Apply2 { f: rng.below(5) as u8, var: rng.usize_below(4) },
+                    6 => {
+                        if rng.chance(0.3) {
+                            Op::ApplyPanic2 { f: rng.below(5) as u8, var: rng.usize_below(4), at: rng.usize_below(64) }
+                        } else {
+                            Op::Apply2 { f: rng.below(5) as u8, var: rng.usize_below(4) }
+                        }
+                    }
                     7 | 8 => Op::XSec { i: rng.usize_below(64) },
                     9 | 10 => Op::YSec { j: rng.usize_below(64) },
                     11 => Op::VarMat { var: rng.usize_below(4) },
@@ -553,6 +570,9 @@ impl<'a> World<'a> {
                         lo + (hi - lo) * frac
                     }
                 };
+                // far from the origin the point is rounded to the grid of doubles there: keep it at least 1e-6
+                // away from both nodes (the property's domain), else take the middle of the cell
+                let x = if x != xl && x != xr && (x - xl < 1.0e-6 || xr - x < 1.0e-6) { 0.5 * (xl + xr) } else { x };
                 let got = l.mesh.get_interpolated_vars(x);
                 if xr - xl > 10.0 || (c + 2 < n && l.model.nodes[c + 2] - xr > 10.0) || (c > 0 && xl - l.model.nodes[c - 1] > 10.0) {
                     self.stats.count("probe.interpolation_next_to_a_cell_wider_than_10");
@@ -630,10 +650,11 @@ impl<'a> World<'a> {
                 }
                 let got = l.mesh.trapezium(var);
                 let (x0, x1) = (l.model.nodes[0], l.model.nodes[n - 1]);
-                let want = a * (x1 - x0) + b * 0.5 * (x1 * x1 - x0 * x0);
+                // (the integral of x written as (x1 - x0)(x0 + x1)/2: x1^2 - x0^2 cancels catastrophically far from the origin)
+                let want = a * (x1 - x0) + b * 0.5 * (x1 - x0) * (x0 + x1);
                 // tolerance relative to the magnitudes that enter the computation (|a| L + |b| x^2 and the
                 // nodal values), never to the result, which may cancel to ~0
-                let mut abs = a.abs() * (x1 - x0) + b.abs() * 0.5 * (x1 * x1 + x0 * x0);
+                let mut abs = (x1 - x0) * (a.abs() + b.abs() * x0.abs().max(x1.abs()));
                 for k in 0..n - 1 {
                     abs += 0.5 * (l.model.nodes[k + 1] - l.model.nodes[k]) * (l.model.vars[k][var].abs() + l.model.vars[k + 1][var].abs());
                 }
@@ -694,6 +715,50 @@ impl<'a> World<'a> {
                 }
                 self.stats.count("op.apply_2d");
                 self.check2("apply")
+            }
+            Op::ApplyPanic2 { f, var, at } => {
+                let var = var % self.model2.nvars;
+                let (nx, ny) = (self.model2.x.len(), self.model2.y.len());
+                let f = *f;
+                self.step(&Op::Trap2 { var })?;
+                self.step(&Op::SqTrap2 { var })?;
+                let at = at % (nx * ny);
+                let calls = std::cell::Cell::new(0usize);
+                let r = catch(|| {
+                    self.m2.apply(
+                        &|x, y| {
+                            let k = calls.get();
+                            calls.set(k + 1);
+                            if k == at {
+                                panic!("scripted panic in the apply callback");
+                            }
+                            apply_fn(f, x, y)
+                        },
+                        var,
+                    )
+                });
+                self.stats.count("op.apply_2d_callback_panics");
+                if r.is_ok() && calls.get() > at {
+                    return vfail("stored-data", "apply-panic-swallowed", self, format!("apply(f, {var}): the callback panicked at its invocation {at}, yet apply returned normally"));
+                }
+                for i in 0..nx {
+                    for j in 0..ny {
+                        let got = self.m2.get_nodes_vars(i, j);
+                        if got.size() != self.model2.nvars {
+                            return vfail("stored-data", "2d-shape", self, format!("after an apply interrupted by a panicking callback: node ({i},{j}) holds {} variables", got.size()));
+                        }
+                        let old = self.model2.vars[i * ny + j][var];
+                        let new = apply_fn(f, self.model2.x[i], self.model2.y[j]);
+                        let g = got.vec[var];
+                        if !eq(g, old) && !eq(g, new) {
+                            return vfail("stored-data", "apply-panic-garbage", self, format!("after an apply interrupted by a panicking callback: node ({i},{j}) var {var} = {g:e}, neither the old value {old:e} nor f(x,y) = {new:e}"));
+                        }
+                        self.model2.vars[i * ny + j][var] = g;
+                    }
+                }
+                self.check2("apply interrupted by a panicking callback")?;
+                self.step(&Op::Trap2 { var })?;
+                self.step(&Op::SqTrap2 { var })
             }
             Op::XSec { i } | Op::YSec { j: i } => {
                 let is_x = matches!(op, Op::XSec { .. });
@@ -788,7 +853,7 @@ impl<'a> World<'a> {
                 let got = self.m2.trapezium(var);
                 let (x0, x1) = (self.model2.x[0], *self.model2.x.last().unwrap());
                 let (y0, y1) = (self.model2.y[0], *self.model2.y.last().unwrap());
-                let (ix, iy) = (0.5 * (x1 * x1 - x0 * x0), 0.5 * (y1 * y1 - y0 * y0));
+                let (ix, iy) = (0.5 * (x1 - x0) * (x0 + x1), 0.5 * (y1 - y0) * (y0 + y1));
                 let terms = [a * (x1 - x0) * (y1 - y0), b * ix * (y1 - y0), c * (x1 - x0) * iy, k * ix * iy];
                 let want: f64 = terms.iter().sum();
                 let abs: f64 = terms.iter().map(|t| t.abs()).sum::<f64>() + (x1 - x0) * (y1 - y0) * (a.abs() + (b * x0).abs() + (b * x1).abs() + (c * y0).abs() + (c * y1).abs() + (k * x1 * y1).abs() + (k * x0 * y0).abs());
@@ -1245,7 +1310,7 @@ impl Prop for C19 {
 
     fn describe(&self) -> Describe {
         Describe {
-            rule: "one case = initial 1-D mesh (2..12 non-uniform dyadic nodes, 1..4 variables), initial 2-D mesh, and a history of 5..40 operations (plus seeding writes) over: per-node set/get, Index/IndexMut, coord/nodes, interpolation at nodes / mid-cell / interior points >= 1e-6 from every node, 1-D and 2-D (square) trapezium incl. closed forms for linear and bilinear data, assign/apply, cross-sections (which join the pool of live 1-D meshes), var_as_matrix, output(path, precision) and read(path) into fresh (0, fewer, more nodes) or live meshes. Each persistence operation carries its own fault list placed on its first / last / line-ending / random write or read call. Swarm per run: fault mode (40% none, 35% transient only, 25% hard+transient), operation-family weights, grid coarseness. A reference model mirrors every operation; every access path is compared after every step. Distinct = hash of the whole case; all cases non-trivial.".into(),
+            rule: "one case = initial 1-D mesh (2..12 non-uniform dyadic nodes, 1..4 variables), initial 2-D mesh, and a history of 5..40 operations (plus seeding writes) over: per-node set/get, Index/IndexMut, coord/nodes, interpolation at nodes / mid-cell / interior points / points 1e-6*2^j (j=0..21) from a node, always >= 1e-6 from every node, on grids that are 15% far from the origin, 12% deceptively uniform, 10% stretched (cell widths 1/8..12288 side by side), 1-D and 2-D (square) trapezium incl. closed forms for linear and bilinear data, assign/apply, cross-sections (which join the pool of live 1-D meshes), var_as_matrix, output(path, precision) and read(path) into fresh (0, fewer, more nodes) or live meshes. Each persistence operation carries its own fault list placed on its first / last / line-ending / random write or read call. Swarm per run: fault mode (40% none, 35% transient only, 25% hard+transient), operation-family weights, grid coarseness. A reference model mirrors every operation; every access path is compared after every step. Distinct = hash of the whole case; all cases non-trivial.".into(),
             assumptions: vec![
                 "transient faults (short write, EINTR on write/read, short read) are legal behaviours of successful OS calls: output/read must succeed and the round trip must hold in full".into(),
                 "after a hard fault (create/open refused, ENOSPC/EIO, write returning 0) the call may panic; the partial file is then unacknowledged and never compared. What is flagged: output returning normally and the file then not reading back (acknowledged-but-wrong), read returning normally with wrong data, the writer mesh changing".into(),
@@ -1286,6 +1351,7 @@ fn op_name(op: &Op) -> &'static str {
         Op::Nodes2 => "nodes2",
         Op::Assign2 { .. } => "assign2",
         Op::Apply2 { .. } => "apply2",
+        Op::ApplyPanic2 { .. } => "apply_panic2",
         Op::XSec { .. } => "xsec",
         Op::YSec { .. } => "ysec",
         Op::VarMat { .. } => "varmat",
@@ -1320,6 +1386,7 @@ fn op_to_json(op: &Op) -> Value {
         Op::Nodes2 => json!({"op":"nodes2"}),
         Op::Assign2 { val } => json!({"op":"assign2","val_bits":f64_hex(*val)}),
         Op::Apply2 { f, var } => json!({"op":"apply2","f":f,"var":var}),
+        Op::ApplyPanic2 { f, var, at } => json!({"op":"apply_panic2","f":f,"var":var,"callback_panics_at_invocation":at}),
         Op::XSec { i } => json!({"op":"xsec","i":i}),
         Op::YSec { j } => json!({"op":"ysec","j":j}),
         Op::VarMat { var } => json!({"op":"varmat","var":var}),
@@ -1348,6 +1415,7 @@ fn op_from_json(v: &Value) -> Op {
         "nodes2" => Op::Nodes2,
         "assign2" => Op::Assign2 { val: hex_f64(&v["val_bits"]) },
         "apply2" => Op::Apply2 { f: u("f") as u8, var: u("var") },
+        "apply_panic2" => Op::ApplyPanic2 { f: u("f") as u8, var: u("var"), at: u("callback_panics_at_invocation") },
         "xsec" => Op::XSec { i: u("i") },
         "ysec" => Op::YSec { j: u("j") },
         "varmat" => Op::VarMat { var: u("var") },
